@@ -390,7 +390,8 @@ class Jetscape(BaseStorer):
                 warnings.warn("The number of events is None.")
             elif self.num_events_ > 1:
                 for i in range(self.num_events_):
-                    event = self.num_output_per_event_[i, 0]
+                    # events in a file are numbered consecutively from one
+                    event = i + 1
                     num_out = self.num_output_per_event_[i, 1]
                     particle_output = np.asarray(list_of_particles[i])
 
@@ -404,7 +405,7 @@ class Jetscape(BaseStorer):
                             f_out, particle_output, fmt="%d %d %d %g %g %g %g"
                         )
             else:
-                event = 0
+                event = 1
                 num_out = self.num_output_per_event_[0][1]
                 particle_output = np.asarray(list_of_particles)
 
